@@ -194,6 +194,11 @@ impl<'a> MlpgGlobalVariance<'a> {
     /// Adjust parameter's deviation from mean value using gv_mean
     fn conv_gv(&mut self, gv_mean: f64) {
         let (mean, vari) = self.calc_gv();
+        // A trajectory that is constant over the eligible frames has no deviation to rescale;
+        // dividing by its zero variance would turn every eligible frame into NaN.
+        if !(vari > 0.0) {
+            return;
+        }
         let ratio = (gv_mean / vari).sqrt();
         self.par
             .iter_mut()
